@@ -189,3 +189,77 @@ def _fpd(x):
     from .api import deep_fp
 
     return deep_fp(x)
+
+
+# --------------------------------------------------------------------------- single-attribute perturbations
+
+SWAPS = [(1, True), (True, 1), (0, False), (1, 1.0), (0.0, -0.0), (-0.0, 0.0), ("a", b"a"), (b"a", "a"), (1.0, 1)]
+
+
+def perturbations(code):
+    """code objects that differ from `code` in exactly one attribute (all still constructible)"""
+    out = []
+    out.append(("nested", cpy.code_replace(code, co_flags=code.co_flags ^ 0x10)))
+    out.append(("stacksize", cpy.code_replace(code, co_stacksize=code.co_stacksize + 1)))
+    out.append(("filename", cpy.code_replace(code, co_filename=code.co_filename + "x")))
+    out.append(("name", cpy.code_replace(code, co_name=code.co_name + "x")))
+    out.append(("firstlineno", cpy.code_replace(code, co_firstlineno=code.co_firstlineno + 1)))
+    if code.co_names:
+        out.append(("names", cpy.code_replace(code, co_names=(code.co_names[0] + "x",) + code.co_names[1:])))
+    for i, v in enumerate(code.co_consts):
+        for a, b in SWAPS:
+            if type(v) is type(a) and v == a and (repr(v) == repr(a)):
+                cs = list(code.co_consts)
+                cs[i] = b
+                out.append(("const:%s->%s" % (type(a).__name__, type(b).__name__), cpy.code_replace(code, co_consts=tuple(cs))))
+                break
+        if type(v) is tuple and v and type(v[0]) is int and not isinstance(v[0], bool):
+            cs = list(code.co_consts)
+            cs[i] = (float(v[0]),) + v[1:]
+            out.append(("const:tuple-int->float", cpy.code_replace(code, co_consts=tuple(cs))))
+    return out
+
+
+def perturb_to_file(sources, path, files=()):
+    """equal CodeData must encode to identical code objects: data decoded from two code objects that
+    differ in one attribute are either unequal, or equal with equal hash and identical to_code()"""
+    from code_data import CodeData
+
+    evs = []
+    tops = []
+    for s in sources:
+        try:
+            tops.append((s["id"], compile(s["src"], "<v>", s.get("mode", "exec"), dont_inherit=True)))
+        except Exception:
+            pass
+    for fn in files:
+        try:
+            with open(fn, "rb") as f:
+                tops.append((fn, compile(f.read(), fn, "exec", dont_inherit=True)))
+        except Exception:
+            pass
+    for tid, top in tops:
+        for p, c in cpy.all_codes(top):
+            if len(c.co_code) > 4000:
+                continue
+            e = {"id": "x:%s:%s:%s" % (VER, tid, p), "kind": "perturb", "ver": VER, "perts": [], "exc": ""}
+            try:
+                d = CodeData.from_code(c)
+                for what, c2 in perturbations(c):
+                    try:
+                        d2 = CodeData.from_code(c2)
+                    except BaseException:  # noqa
+                        continue
+                    eq = d == d2
+                    rec = [what, eq, True, True, what.startswith("const:")]
+                    if eq:
+                        rec[2] = hash(d) == hash(d2)
+                        rec[3] = not cpy.code_diff(d.to_code(), d2.to_code())
+                    e["perts"].append(rec)
+            except BaseException as ex:  # noqa
+                e["exc"] = "%s: %s" % (type(ex).__name__, ex)
+            evs.append(e)
+    with open(path, "w") as fh:
+        for e in evs:
+            fh.write(json.dumps(e, separators=(",", ":")) + "\n")
+    return len(evs)
